@@ -42,6 +42,17 @@ def _programs():
     add("value_counts", lambda t, k: t.df.a.value_counts(**_kw(split_every=k["split_every"], split_out=k["split_out"])), lambda t: t.df.a.value_counts(), {"split_every": SPLIT_EVERY, "split_out": SPLIT_OUT}, True)
     add("unique", lambda t, k: t.df.a.unique(**_kw(split_every=k["split_every"], split_out=k["split_out"])), lambda t: pd.Series(t.df.a.unique(), name="a"), {"split_every": SPLIT_EVERY, "split_out": SPLIT_OUT}, True, True)
     add("drop_duplicates", lambda t, k: t.df[["a", "f"]].drop_duplicates(**_kw(split_every=k["split_every"], split_out=k["split_out"])), lambda t: t.df[["a", "f"]].drop_duplicates(), {"split_every": SPLIT_EVERY, "split_out": SPLIT_OUT}, True, True)
+    # var / std over partitions that hold NO observation of a column (emptied by a filter, or all values missing there):
+    # the combine step of the tree must skip them like the un-batched reduction does (seed C10_7)
+    add("frame_var_emptied_partitions", lambda t, k: t.df[t.df.u > 30][["b", "u"]].var(**_kw(split_every=k["split_every"])), lambda t: t.df[t.df.u > 30][["b", "u"]].var(), {"split_every": SPLIT_EVERY})
+    add("series_std_emptied_partitions", lambda t, k: t.df[(t.df.u < 9) | (t.df.u > 50)].b.std(**_kw(split_every=k["split_every"])), lambda t: t.df[(t.df.u < 9) | (t.df.u > 50)].b.std(), {"split_every": SPLIT_EVERY})
+    add("frame_std_all_missing_in_partition", lambda t, k: t.df[["b", "u"]].assign(b=t.df.b.where(t.df.u > 30)).std(**_kw(split_every=k["split_every"])), lambda t: t.df[["b", "u"]].assign(b=t.df.b.where(t.df.u > 30)).std(), {"split_every": SPLIT_EVERY})
+    add("series_var_ddof0_all_missing_in_partition", lambda t, k: t.df.b.where(t.df.u > 30).var(ddof=0, **_kw(split_every=k["split_every"])), lambda t: t.df.b.where(t.df.u > 30).var(ddof=0), {"split_every": SPLIT_EVERY})
+    # idxmax / idxmin through every tree shape (seed C10_8): k is unique and not monotone, b has ties and missing values
+    for fn in ("idxmax", "idxmin"):
+        add(f"series_{fn}", lambda t, k, fn=fn: getattr(t.df.assign(k=(t.df.u * 37) % 101).k, fn)(**_kw(split_every=k["split_every"])), lambda t, fn=fn: getattr(t.df.assign(k=(t.df.u * 37) % 101).k, fn)(), {"split_every": SPLIT_EVERY})
+        add(f"frame_{fn}", lambda t, k, fn=fn: getattr(t.df.assign(k=(t.df.u * 37) % 101)[["b", "k", "u"]], fn)(**_kw(split_every=k["split_every"])), lambda t, fn=fn: getattr(t.df.assign(k=(t.df.u * 37) % 101)[["b", "k", "u"]], fn)(), {"split_every": SPLIT_EVERY})
+        add(f"filtered_frame_{fn}", lambda t, k, fn=fn: getattr(t.df.assign(k=(t.df.u * 37) % 101)[t.df.a > 0][["b", "k"]], fn)(**_kw(split_every=k["split_every"])), lambda t, fn=fn: getattr(t.df.assign(k=(t.df.u * 37) % 101)[t.df.a > 0][["b", "k"]], fn)(), {"split_every": SPLIT_EVERY})
     add("nunique", lambda t, k: t.df.a.nunique(**_kw(split_every=k["split_every"])), lambda t: t.df.a.nunique(), {"split_every": SPLIT_EVERY})
     for agg in ("sum", "mean", "var", "std", "count", "min", "first", "last", "size", "prod"):
         add(
